@@ -1183,6 +1183,10 @@ class Interp:
                     return self.push_frame(W, fn, args, kwargs, ret) or JUMPED
                 else:
                     r = self.models.call_python_function(W, fn, args, kwargs)
+            elif isinstance(fn, type) and self.models.class_model(fn) is not None and any(isinstance(a, SGen) for a in args):
+                from . import prelude
+                fn, args, kwargs = prelude._materialize_call, (fn, tuple(args), dict(kwargs)), {}
+                continue
             elif isinstance(fn, type):
                 if stack_cut is not None:
                     saved = F.stack[stack_cut:]
